@@ -69,17 +69,16 @@ def inInterval (c : Nat) (x : Int) (lo hi d : Nat) (incl : Bool) : Bool :=
   let ch := cmpScaled (c * d) x hi 0
   (cl == .gt || (incl && cl == .eq)) && (ch == .lt || (incl && ch == .eq))
 
-/-- |c·10^x − v/d| compared for two candidates: returns true if `c1` is strictly closer.  An
-exact tie goes to the upper candidate: that is what `core::fmt`'s shortest mode does (ECMAScript
-says "even"; both read back to the same double, and C15 does not distinguish them — recorded in
-DESIGN.md as a reference-engine difference on exact ties only). -/
+/-- |c·10^x − v/d| compared for two candidates: returns true if `c1` is to be taken.  An exact tie
+goes to the candidate whose last digit is even, as ECMAScript's Number::toString prescribes
+(`core::fmt`'s shortest mode takes the upper one; `shortest_digits` in src/value.rs corrects that). -/
 def closer (c1 c2 : Nat) (x : Int) (v d : Nat) : Bool :=
   -- c1 = floor candidate ≤ v/d ≤ c2 = c1+1 :  (v/d − c1·10^x)  vs  (c2·10^x − v/d)
   -- ⇔ 2·v  vs  (c1+c2)·d·10^x
   match cmpScaled (2 * v) 0 ((c1 + c2) * d) x with
   | .lt => true
   | .gt => false
-  | .eq => false
+  | .eq => c1 % 2 == 0
 
 def stripZeros (c : Nat) (fuel : Nat) : Nat :=
   match fuel with
